@@ -56,7 +56,10 @@ def make_options(cfg: dict, flow: Any = None) -> pstreams.SerializerOptions:
         stream_name=cfg.get("stream_name", ""),
     )
     how = cfg.get("params_build", "direct")
-    if how == "version1":            # a caller who spells out the (lowest) version and asks for declarations
+    if how == "positional":          # ... or passes the parameters POSITIONALLY, in the order the dataclass declares them
+        params = StreamParameters(kw["generalized_statements"], kw["rdf_star"], 2 if kw["namespace_declarations"] else 1,
+                                  kw["delimited"], kw["namespace_declarations"], kw["stream_name"])
+    elif how == "version1":          # a caller who spells out the (lowest) version and asks for declarations
         params = StreamParameters(version=1, **kw)
     elif how == "replace":           # ... or derives the parameters from existing ones (defaults, parsed options)
         import dataclasses
